@@ -157,7 +157,16 @@ def check_view(ck, view, tag=""):
             loops = circ.loops_of(cs[0][2])
             if not any(l == children for l in loops):
                 children = None
-    if not ck.require(children is not None and isinstance(children, tuple) and children[0] == "from_fn", "ORDER", tag + "walk/parent-preimage",
+    if children is None:
+        # `[c0, c1, c2, c3].iter().flat_map(|c| c.elements).collect()`: the children in slot order, each contributing its limbs in order
+        pn = P.norm(pre)
+        if isinstance(pn, tuple) and pn and pn[0] == "call" and pn[2].endswith("::flat_map") and len(pn[4]) == 2 and isinstance(pn[4][1], tuple) and pn[4][1][0] == "closure":
+            src = P.norm(pn[4][0])
+            per = P.norm(fr.closure_ret(pn[4][1], [("elem", src)], site_hint=pn[1]))
+            if per == ("fld", ("elem", src), "elements") and isinstance(src, tuple) and src and src[0] in ("array", "from_fn"):
+                children = src
+    n_children = len(children[1]) if (isinstance(children, tuple) and children and children[0] == "array") else (lc.known_len(children) if children is not None else None)
+    if not ck.require(children is not None and isinstance(children, tuple) and children[0] in ("from_fn", "array") and n_children == 4, "ORDER", tag + "walk/parent-preimage",
                       "the parent preimage is the concatenation of the 4 children's limbs in slot order (one append per child, in a loop over the children array)",
                       cs[0][2].loc if cs else e.loc, [(k, T.show(t)[:200]) for k, t, _ in cs]):
         return
